@@ -222,7 +222,16 @@ def rule_e(ctx):
 
 WITNESS = ['c09']  # doctest filters in /verif/witness (thorough tier)
 
+def rule_f(ctx):
+    """shared clause group: how a due action gets executed (C10.a/d, C07.b/c)"""
+    from . import c07, c10
+    c10.rule_a(ctx)
+    c10.rule_d(ctx)
+    c07.rule_b(ctx)
+    c07.rule_c(ctx)
+
 RULES = [
+    ("C09.f", "non-cancelled actions are unaffected: pull helper, chaining, SeqFuture", rule_f),
     ("C09.a", "cancelled actions are skipped when choosing the next key", rule_a),
     ("C09.b", "keyed model events re-check the flag inside the model", rule_b),
     ("C09.c", "cancel / drop set the flag that is_cancelled reads", rule_c),
